@@ -161,3 +161,43 @@ def payload_writers(ctx, cfg, fs, rule):
                     qs = provenance(b, o, r.site[0], r.site[1], through=None)
                     ok &= bool(qs) and all(q.kind == 'call' and q.call.is_(r'String::len$') and any('payload' in z.path for z in provenance(b, q.call.args[0], q.call.bb, 'term')) for q in qs)
     ctx.ob(rule, 'doc-writers:write:records-growth', ok, 'write records the growth of the payload (len after - len before) for what it formatted: %s' % ok, where=b.where(), cfg=cfg)
+
+
+def style_reset_first(ctx, cfg, fs, rule, fn_rx, style_fn_rx):
+    """inline styles (<b>, <tt>, `**`, back-ticks ..) are closed BEFORE anything a block boundary writes: in the BlockStart
+    and BlockEnd arms the call that resets the style (change_style(.., Styles::default())) comes before every other write
+    to the output - otherwise `<b>title<div></b>` : the closing tag lands inside the block that was just opened"""
+    n = 0
+    for (b, tsw, hdr) in token_loops(fs):
+        if not re.search(fn_rx, b.path):
+            continue
+        if len({tsw.target('Text'), tsw.target('BlockStart'), tsw.target('BlockEnd')}) != 3:
+            continue      # a `matches!(next token, ..)` inside an arm, not the dispatch of the loop
+        ctx.look(b)
+        res = None
+        for c in b.calls():
+            if c.is_(r'^std::string::String::new$') and c.dest and not c.dest[1] and b.local_ty(c.dest[0]) == 'std::string::String' and b.dominates(c.bb, hdr.bb):
+                res = c.dest[0] if res is None or b.name_of(c.dest[0]) == 'res' else res
+        if res is None:
+            raise Broken('%s: output String not found' % b.path)
+        locs, sinks = flows_to(b, res, through=None)
+        for arm in ('BlockStart', 'BlockEnd'):
+            t = tsw.target(arm)
+            if t is None:
+                continue
+            region = reachable_edges(b, t, avoid=[hdr.bb])
+            resets = [c for c in b.calls() if c.bb in region and c.is_(style_fn_rx) and
+                      any(q.kind == 'call' and q.call.is_(r'Default>::default$') for q in provenance(b, c.args[-1], c.bb, 'term', through=None))]
+            writes = []
+            for (bb, k, kind, p) in sinks:
+                if kind == 'call' and bb in region:
+                    c = Call(b, bb, p)
+                    a0 = op_place(c.args[0]) if c.args else None
+                    if a0 and a0[0] in locs and not c.is_(style_fn_rx) and not c.is_(r'String::(len|is_empty|as_str|ends_with|starts_with|capacity)$', r'Deref', r'str::<impl str>::(ends_with|starts_with|is_empty|len)$'):
+                        writes.append(c)
+            late = [c.where() for c in writes if not any(b.dominates(r_.bb, c.bb) for r_ in resets)]
+            n += 1
+            ctx.ob(rule, '%s:%s:style-closed-before-block-output' % (b.path.split('::')[-1], arm), bool(resets) and not late,
+                   '%s, %s arm: the style reset precedes every write of the arm (%d reset(s), %d write(s)): %s' % (b.path.split('::')[-1], arm, len(resets), len(writes), late[:3] or 'ok'), where=b.where(t), cfg=cfg)
+    if n == 0:
+        raise Broken('style_reset_first: no token loop matches %s' % fn_rx)
